@@ -180,7 +180,16 @@ def run_impl(p):
             idx = ragidx.py_rowsel(sel, p.get("variant", 1))      # lists and masks as Python lists (even) or ndarrays (odd)
             if sel["t"] == "all":
                 idx = slice(None)
-            return _table(obj[idx], names)
+            r = obj[idx]
+            o = _table(r, names)
+            # the selection is a table of its own: iterating it, selecting all of it again, concatenating it with nothing and
+            # comparing it with itself must agree with its entries; the source is unchanged
+            if len(r):
+                it = [[np.atleast_1d(np.asarray(getattr(e, n))).tolist() for n in names] for e in r]
+                again = _table(r[:], names)
+                if it != _entries(r, names) or again != o or not bool(r == r[:]) or _entries(obj, names) != _entries(_obj(p["cols"]), names):
+                    raise AssertionError("a selected table does not behave like a table holding its entries")
+            return o
         if f == "iter":
             return [[np.atleast_1d(np.asarray(getattr(r, n))).tolist() for n in names] for r in obj]
         if f == "eq" and p.get("eqmode") in ("narrow", "one_cell") and len(obj) >= 1:
